@@ -664,12 +664,34 @@ class EOM:
         elif not optimizeResult.converged:
             results.setSuccessState(False, ESolutionType.ERROR, optimizeResult.flag)
         elif (
-            np.any(wallParams.widths == self.wallThicknessBounds[0] / self.thermo.Tnucl)
-            or np.any(wallParams.offsets == self.wallOffsetBounds[0])
-            or np.any(
-                wallParams.widths == self.wallThicknessBounds[1] / self.thermo.Tnucl
+            # The bounded minimisation can stop a few ulps inside a bound, so compare
+            # with a (tiny) relative tolerance instead of exact equality
+            np.any(
+                np.isclose(
+                    wallParams.widths,
+                    self.wallThicknessBounds[0] / self.thermo.Tnucl,
+                    rtol=1e-6,
+                    atol=0,
+                )
             )
-            or np.any(wallParams.offsets == self.wallOffsetBounds[1])
+            or np.any(
+                np.isclose(
+                    wallParams.offsets, self.wallOffsetBounds[0], rtol=1e-6, atol=0
+                )
+            )
+            or np.any(
+                np.isclose(
+                    wallParams.widths,
+                    self.wallThicknessBounds[1] / self.thermo.Tnucl,
+                    rtol=1e-6,
+                    atol=0,
+                )
+            )
+            or np.any(
+                np.isclose(
+                    wallParams.offsets, self.wallOffsetBounds[1], rtol=1e-6, atol=0
+                )
+            )
         ):
             results.setSuccessState(
                 False,
